@@ -6,6 +6,7 @@ from sympy.physics.units import Quantity as SymQuantity, Dimension
 from .symbols.symbols import DimensionSymbol, Function, Symbol, IndexedSymbol
 from .operations.symbolic import Symbolic
 from .dimensions import assert_equivalent_dimension
+from .vectors.vectors import QuantityVector
 
 _ValueType: TypeAlias = SupportsFloat | DimensionSymbol | Symbolic
 
@@ -24,6 +25,10 @@ def _assert_expected_unit(
     for item in values:
         if isinstance(item, SymQuantity):
             components.append(item)
+        elif isinstance(item, QuantityVector) and all(
+                c.scale_factor.is_zero for c in item.components):
+            # zero vector matches any dimension, like the zero scalar does
+            components.append(0)
         elif isinstance(item, DimensionSymbol):
             components.append(item.dimension)
         elif isinstance(item, Symbolic):
